@@ -128,3 +128,13 @@ CLAIMS["C15"]["text"] += " Every true flag of the request parameters reaches the
 CLAIMS["C17"]["text"] += " A configured etag_override is sent also when no ETag can be induced from the request (three-valued evaluation of the header's gate); the by-design updatedisabled assertion is evaluated only for request entries that carry an updatecheck."
 for _p in ("C02", "C04", "C05", "C06", "C08", "C09", "C10", "C11", "C12", "C18"):
     CLAIMS[_p]["technique"] += "; path-sensitive must-facts over enum variants and boolean constants (up to 8 alternative fact sets per node) prune infeasible paths of the skeleton"
+
+
+# ---- additions after the eighth external round (two cooperating sites, multi-step histories, boundary inputs)
+CLAIMS["C05"]["text"] += " The start gate may be spelled over the apps themselves (get_apps().iter().all(App::valid)); a running task that makes no test of the live app set before its first policy question is a violation."
+CLAIMS["C06"]["text"] += " The attempt counter may be incremented at several textual sites of the loop (an arm that continues early); the bound, the per-variant guards and the wait on every way from one send to the next are decided over all of them."
+CLAIMS["C09"]["text"] += " With the roles of the two loops swapped (responses outside, apps searched inside) the searched apps iterator must be created inside the loop: one iterator shared by all responses is a violation."
+CLAIMS["C11"]["text"] += " Must direction of the upgrade: from the edge where the incoming request's source equals OnDemand, the arm cannot return to its wait (or leave) without writing OnDemand into the pending options."
+CLAIMS["C12"]["text"] += " The value handed to the timers is the latest policy answer: between the point where it was bound and the arming no other policy query lies."
+CLAIMS["C13"]["text"] += " In the progress forwarder the next read of the channel is only reached through the emission of the value just read."
+CLAIMS["C19"]["text"] += " A truncation helper without any branch on the side of the epoch that moves the wall time by the remainder in one fixed direction is a violation (it disagrees with the storage encoding on one side)."
